@@ -62,10 +62,14 @@ pub fn encode_value(val: &Value) -> Result<Vec<u8>> {
     Ok(out)
 }
 
+/// Maximum container nesting accepted by [`decode_value`]. Recursion depth is
+/// otherwise bounded only by the input length (1 MiB of `0x81` overflows any stack).
+pub const MAX_DECODE_DEPTH: usize = 128;
+
 /// Decode deterministic CBOR bytes into a `ciborium::value::Value`.
 pub fn decode_value(bytes: &[u8]) -> Result<Value> {
     let mut idx = 0usize;
-    let v = dec_value(bytes, &mut idx)?;
+    let v = dec_value(bytes, &mut idx, 0)?;
     if idx != bytes.len() {
         return Err(CanonError::Trailing);
     }
@@ -219,7 +223,10 @@ fn write_major(major: u8, n: u128, out: &mut Vec<u8>) {
     }
 }
 
-fn dec_value(bytes: &[u8], idx: &mut usize) -> Result<Value> {
+fn dec_value(bytes: &[u8], idx: &mut usize, depth: usize) -> Result<Value> {
+    if depth > MAX_DECODE_DEPTH {
+        return Err(CanonError::Decode("nesting too deep".into()));
+    }
     fn need(bytes: &[u8], idx: usize, n: usize) -> Result<()> {
         if bytes.len().saturating_sub(idx) < n {
             Err(CanonError::Incomplete)
@@ -305,7 +312,7 @@ fn dec_value(bytes: &[u8], idx: &mut usize) -> Result<Value> {
         }
         2 | 3 => {
             let len = read_len(bytes, idx, info)?;
-            let len = len as usize;
+            let len = usize::try_from(len).map_err(|_| CanonError::Incomplete)?;
             need(bytes, *idx, len)?;
             let data = &bytes[*idx..*idx + len];
             *idx += len;
@@ -318,20 +325,23 @@ fn dec_value(bytes: &[u8], idx: &mut usize) -> Result<Value> {
             }
         }
         4 => {
-            let len = read_len(bytes, idx, info)? as usize;
+            // Every element occupies at least one input byte: a declared length
+            // beyond the remaining input can never complete, so reject it before
+            // reserving anything (2^32 / 2^64-1 used to abort or panic here).
+            let len = checked_len(read_len(bytes, idx, info)?, bytes.len() - *idx, 1)?;
             let mut items = Vec::with_capacity(len);
             for _ in 0..len {
-                items.push(dec_value(bytes, idx)?);
+                items.push(dec_value(bytes, idx, depth + 1)?);
             }
             Ok(Value::Array(items))
         }
         5 => {
-            let len = read_len(bytes, idx, info)? as usize;
+            let len = checked_len(read_len(bytes, idx, info)?, bytes.len() - *idx, 2)?;
             let mut entries = Vec::with_capacity(len);
             let mut last_key: Option<Vec<u8>> = None;
             for _ in 0..len {
                 let key_start = *idx;
-                let k = dec_value(bytes, idx)?;
+                let k = dec_value(bytes, idx, depth + 1)?;
                 let key_end = *idx;
                 let kb = &bytes[key_start..key_end];
                 if let Some(prev) = &last_key {
@@ -342,7 +352,7 @@ fn dec_value(bytes: &[u8], idx: &mut usize) -> Result<Value> {
                     }
                 }
                 last_key = Some(kb.to_vec());
-                let v = dec_value(bytes, idx)?;
+                let v = dec_value(bytes, idx, depth + 1)?;
                 entries.push((k, v));
             }
             Ok(Value::Map(entries))
@@ -395,6 +405,16 @@ fn dec_value(bytes: &[u8], idx: &mut usize) -> Result<Value> {
         6 => Err(CanonError::Tag),
         _ => Err(CanonError::Decode("unknown major type".into())),
     }
+}
+
+/// A container declaring `declared` elements of at least `min_bytes` each must
+/// fit in the `remaining` input bytes.
+fn checked_len(declared: u64, remaining: usize, min_bytes: usize) -> Result<usize> {
+    let len = usize::try_from(declared).map_err(|_| CanonError::Incomplete)?;
+    if len > remaining / min_bytes {
+        return Err(CanonError::Incomplete);
+    }
+    Ok(len)
 }
 
 /// True when `f` is integral **and** the integer has a CBOR encoding this
